@@ -107,7 +107,8 @@ def b(rule, quick=60, thorough=1200):
 
 
 PROPS.update({
-    "C08": b("seeded build descriptions (2-12 shell/phony commands, multiple outputs, shared sub-graphs, dependency files) written as YAML "
+    "C08": b("seeded build descriptions (2-12 shell/phony commands, multiple outputs, shared sub-graphs, dependency files, commands with a "
+             "working directory, command-timestamp nodes) written as YAML "
              "and loaded by the real BuildFile x histories of {edit/delete source, delete/overwrite output, edit description, inject failure, "
              "build target} in a new frontend per build, serial and parallel lanes; after each successful build every output reachable "
              "from the target is compared with an independent clean-build evaluation. Non-trivial: a description edit and a source edit "
@@ -116,7 +117,8 @@ PROPS.update({
              "a command must run iff it never succeeded, its definition hash changed (each single-attribute edit kind), an input/"
              "discovered/output state differs from what it recorded, or a producer of an input ran. Non-trivial: a build that both ran "
              "and skipped commands, or a null build."),
-    "C10": b("same generator with command failures - injected (exit status, fatal signal, failure after writing one output) and the tool's "
+    "C10": b("same generator with command failures - injected (exit status, fatal signal, SIGKILL from outside the build, posix_spawn failing, "
+             "failure after writing one output) and the tool's "
              "own (missing source input, a directory where an output must be written, a tool that stops at a missing undeclared header, a "
              "file where a mkdir command must create its directory) - in builds that run to completion, builds cancelled on the first "
              "failure by the delegate, and builds through the command-line driver; no transitive consumer may run, the build must report failure, the command must be retried, and after "
@@ -126,7 +128,8 @@ PROPS.update({
              "mkdir, remove sub-tree) and node type/filter edits between builds in new frontends; the consumer must re-execute iff the "
              "digest of what the node covers changed. Non-trivial: a tree edit happened and the consumer re-ran at least once."),
     "C14": b("histories of (expected outputs, roots) for a stale-file-removal command over a path pool with shared prefixes (/r vs /rr), "
-             "trailing and doubled separators, relative paths, the empty string, directories with content, a path equal to a root; new "
+             "trailing and doubled separators, relative paths, the empty string, directories with content, a path equal to a root, symbolic links "
+             "(to a non-empty directory outside every root, and dangling); new "
              "frontend (process) per build; the set of paths removed from the simulated file system during the build (mutation log) "
              "must equal the statement's predicate, and nothing else may be touched. Non-trivial: >= 2 builds and a path was removed."),
     "C11": b("commands read undeclared paths spelled with every character special to the formats (space # $ backslash colon, relative, "
@@ -178,8 +181,9 @@ WORLD_D_COMPONENTS = {
 PROPS["C18"] = {
     "level": "exploration",
     "rule": "seeded manifests (2-10 statements over rules cc / ccdep (depfile, deps=gcc) / ccrestat / ccgen / ccrsp (response file), explicit, implicit and order-only "
-            "inputs, two-output statements, pools of depth 1 and 2 and the console pool, a phony aggregate and default targets) x histories of {source and header "
-            "edits, output deletions, manifest edits that change a command line (variable, order of $in), injected failures with retry, "
+            "inputs, statements without inputs, depfiles naming an order-only input (generated header), two-output statements, pools of depth 1 and 2 and the "
+            "console pool, a phony aggregate and default targets) x histories of {source and header "
+            "edits, output deletions, manifest edits that change a command line (variable, order of $in), injected failures with retry (exit status, SIGSEGV, SIGKILL from outside, posix_spawn failing), "
             "immediate rebuilds} x -j1..4 x with/without --db x --no-regenerate x manifest regenerated by a build statement, each invocation a fresh executeNinjaBuildCommand under a "
             "seeded schedule. Oracles: outputs equal an independent clean-build evaluation after every successful invocation (C18.1); with "
             "the database, the set of executed commands equals a model of ninja's rule (never built / command line changed / output "
